@@ -70,6 +70,12 @@ def run(oc, tier, seed, model_available, escalate):
             tree = dict(tree or {})
             tree["boundary.bin"] = bytes(rng.randrange(256) for _ in range(fsz))
             oc.count("directed: block starting exactly at --size")
+        if it % 16 == 9 and tree:
+            # directed: very deep nesting - a relative path of more than two thousand characters (components of up to 200 characters, well
+            # below the file system's limits): the entry's metadata then spans several kilobytes
+            comps = [("d%02d_" % j_) + "x" * rng.choice([60, 150, 195]) for j_ in range(rng.randint(11, 14))]
+            tree["/".join(comps + ["leaf.bin"])] = bytes(rng.randrange(256) for _ in range(rng.choice([0, 5, 300])))
+            oc.count("directed: relative path longer than 2000 characters")
         if not tree:
             continue
         root = os.path.join(d, "root")
@@ -78,14 +84,38 @@ def run(oc, tier, seed, model_available, escalate):
         single = len(tree) == 1 and rng.random() < 0.5
         first = sorted(tree)[0]
         inp = os.path.join(root, *first.split("/")) if single else root
-        g = eu.generate(P, inp, ecc)
+        gen_extra, protected = None, None
+        if it % 16 == 13 and not single:
+            # directed: --skip_size_below with --always_include_ext (compound and upper-case extensions): the files left out are exactly the
+            # small ones whose lower-cased path does not end in one of the listed extensions; all the others are protected and must be processed
+            P.tool = "header" if it % 32 == 13 else "whole"        # (both tools have their own copy of the option handling)
+            tree = dict(tree)
+            tree["sub/backup.tar.gz"] = b"tiny"
+            tree["PIC.JPG"] = b"x"
+            tree["note.txt"] = b"s"
+            tree["big.dat"] = bytes(rng.randrange(256) for _ in range(300))
+            eu.write_tree(root, tree)
+            limit = rng.choice([100, 150])
+            exts = ("jpg", "tar.gz")
+            gen_extra = ["--skip_size_below", str(limit), "--always_include_ext", "|".join(exts)]
+            protected = [p_ for p_, c_ in tree.items() if len(c_) >= limit or p_.lower().endswith(tuple("." + e_ for e_ in exts))]
+            oc.count("directed: --skip_size_below with --always_include_ext")
+        g = eu.generate(P, inp, ecc, extra=gen_extra)
         oc.oracle_cases += 1
         if g != "0":
             oc.violations.append({"input": {"params": P.describe(), "tree": {k: len(v) for k, v in tree.items()}},
                                   "what": "generation failed on a well-formed tree: %s" % g})
             continue
         data = open(ecc, "rb").read()
-        if eu.accidental(data, len(tree)):
+        nb_ = len(eu.entry_bounds(data))
+        if protected is None and nb_ != len(tree) and not eu.accidental(data, nb_):
+            # every entry is well formed (its four delimiters in place) but there is not one entry per file: generation left files out
+            oc.violations.append({"input": {"params": P.describe(), "tree": {k: v.hex()[:400] for k, v in tree.items()}},
+                                  "impl": {"entries_in_ecc_file": nb_}, "required": {"entries_in_ecc_file": len(tree)},
+                                  "what": "generation did not write exactly one entry per file of the tree"})
+            continue
+        # (with the size/extension options the number of entries is what is being judged: only the delimiter part of the test applies)
+        if eu.accidental(data, len(tree) if protected is None else len(eu.entry_bounds(data))):
             oc.count("excluded: accidental marker/delimiter in the ecc file")
             continue
         relocated = rng.random() < 0.5
@@ -96,10 +126,10 @@ def run(oc, tier, seed, model_available, escalate):
         else:
             inp2 = inp
         rc, stats, out, txt = eu.correct(P, inp2, ecc, os.path.join(d, "out"))
-        want = (len(tree), 0, 0, 0, 0, 0)
+        want = (len(tree) if protected is None else len(protected), 0, 0, 0, 0, 0)
         if rc != "0" or stats != want or out:
             oc.violations.append({"input": {"params": P.describe(), "tree": {k: v.hex() for k, v in tree.items()},
-                                            "single_file_input": single, "relocated": relocated},
+                                            "single_file_input": single, "relocated": relocated, "generation_options": gen_extra},
                                   "impl": {"exit": rc, "stats": stats, "outputs": sorted(out)},
                                   "required": {"exit": "0", "stats": want, "outputs": []},
                                   "what": "correction of an undamaged tree did not report (all processed, 0 corrupted, 0 skipped, nothing written, exit 0)"})
